@@ -69,6 +69,7 @@ func init() {
 		mutation{"algo-mapping-swapped", "tun/server/keyless_rpc.go", "	case protocol.KeylessSignRequest_SHA384:\n		opts = crypto.SHA384", "	case protocol.KeylessSignRequest_SHA384:\n		opts = crypto.SHA512", "sign-gate"},
 	)
 	addSelfTests("C51",
+		mutation{"own-entry-from-memory", "tun/server/client_rpc.go", "			key := tun.DestinationByChordKey(chord.Identity())\n			destination, err := s.lookupDestination(fnCtx, key)", "			if chord.Identity().GetAddress() == s.ChordTransport.Identity().GetAddress() {\n				return s.TunnelTransport.Identity(), nil\n			}\n			key := tun.DestinationByChordKey(chord.Identity())\n			destination, err := s.lookupDestination(fnCtx, key)", "offer-bound"},
 		mutation{"address-not-recorded", "spec/chord/chord.go", "		seen[succ.Identity().GetAddress()] = true\n		succList = append(succList, succ)", "		succList = append(succList, succ)", "offer-bound"},
 		mutation{"offer-all-successors", "tun/server/client_rpc.go", "	vnodes := chord.MakeSuccListByAddress(s.Chord, successors, tun.NumRedundantLinks)", "	vnodes := chord.MakeSuccListByAddress(s.Chord, successors, chord.ExtendedSuccessorEntries+1)", "offer-bound"},
 		mutation{"dedup-by-id", "tun/server/client_rpc.go", "	vnodes := chord.MakeSuccListByAddress(s.Chord, successors, tun.NumRedundantLinks)", "	vnodes := chord.MakeSuccListByID(s.Chord, successors, tun.NumRedundantLinks)", "offer-bound"},
@@ -1299,6 +1300,27 @@ func runC51(c *Ctx) {
 		g := gn.enclosing(call)
 		c.Ob("offer-bound", "GetNodes#job-key", call.Pos(), strings.HasSuffix(g.Prov(call.Args[0]), ".Identity()") && strings.Contains(g.Prov(call.Args[0]), "MakeSuccListByAddress()"), "each job looks up the destination of its own list element; found "+g.Prov(call.Args[0]))
 	}
+	// what a job answers comes from the published record it looked up: every success
+	// return of a job literal yields <lookupDestination result>.GetTunnel(), reached only
+	// when that lookup succeeded (a cached / locally known copy would keep a node on
+	// offer whose record is gone)
+	njob := 0
+	for _, lit := range gn.Lits() {
+		g := gn.Closure(lit)
+		if lit.Type.Results == nil || len(lit.Type.Results.List) != 2 || !strings.HasSuffix(typeStr(g, lit.Type.Results.List[0].Type), "protocol.Node") {
+			continue
+		}
+		for _, r := range g.Returns() {
+			if len(r.Results) != 2 || !isNilIdent(g.Info, r.Results[1]) {
+				continue
+			}
+			njob++
+			pv := g.Prov(r.Results[0])
+			okRec := strings.Contains(pv, ".lookupDestination()#0.GetTunnel()") && g.FactsAt(r).CallOK("tun/server.Server.lookupDestination")
+			c.Ob("offer-bound", "GetNodes#job-answers-from-the-looked-up-record", r.Pos(), okRec, "a job's node is the tunnel endpoint of the destination record it just looked up, after that lookup succeeded; found "+pv)
+		}
+	}
+	c.Floor("GetNodes job success returns", njob, 1)
 	// response only from promise.All results, after the error loop
 	for _, r := range successReturns(gn) {
 		okResp := false
